@@ -31,7 +31,7 @@ NOT_DECIDED = ['every string comparison result', 'the search over trailing seque
 
 def run(ctx):
     for fn in (r1_never_after, r2_check_guard, r3_unmatched_typestate, r4_repr_fallback,
-               r5_comment_only, r6_summary_flags, r7_got_eval_fresh):
+               r5_comment_only, r6_summary_flags, r7_got_eval_fresh, r8_trailing_sequences):
         ctx.rep.rule(fn, ctx)
 
 
@@ -368,6 +368,98 @@ def _is_not_evaled(v):
 
 
 # ---------------------------------------------------------------------------
+CHECK = 'xdoctest.doctest_part.DoctestPart.check'
+
+
+def r8_trailing_sequences(ctx):
+    """shape of the search over trailing sequences of unmatched outputs"""
+    from ..affine import Evaluator, parse_spec
+    rep = ctx.rep
+    f = ctx.func(CHECK)
+    g = ctx.cfg(f)
+    rd = ctx.rd(f)
+    params = [a.arg for a in f.node.args.args]
+    need({'got_stdout', 'got_eval', 'runstate', 'unmatched'} <= set(params), 'C02.R8: signature of DoctestPart.check changed')
+    cmp_calls = [(n, c) for n in g.nodes for c in node_calls(n) if ctx.res.resolve_call(f, c)[0] == 'repo' and ctx.res.resolve_call(f, c)[1][0].qualname == 'xdoctest.checker.check_got_vs_want']
+    rep.floor('C02.R8', 'comparator calls in DoctestPart.check', len(cmp_calls), 1)
+    for (n, c) in cmp_calls:
+        loops = [fr for fr in n.frames if fr.kind == 'loop']
+        if not loops:
+            rep.ob('C02.R8', ctx.loc(f, c), ctx.src(c), False, 'the want is compared with one candidate only: earlier unmatched output can no longer satisfy it', anchor=CHECK)
+            continue
+        head = loops[-1].head
+        it = head.ast.iter
+        ivar = head.ast.target.id if isinstance(head.ast.target, ast.Name) else None
+        # (a) candidate list T = unmatched + [got_stdout]
+        cand = c.args[1] if len(c.args) > 1 else None
+        tname = None
+        ok_c = False
+        if isinstance(cand, ast.Name):
+            for d in rd.at(n, cand.id):
+                v = d.value
+                if isinstance(v, ast.Call) and isinstance(v.func, ast.Attribute) and v.func.attr == 'join' and isinstance(v.func.value, ast.Constant) and v.func.value.value == '' and v.args:
+                    sl = v.args[0]
+                    if isinstance(sl, ast.Subscript) and isinstance(sl.value, ast.Name) and isinstance(sl.slice, ast.Slice) and sl.slice.upper is None and \
+                            isinstance(sl.slice.lower, ast.UnaryOp) and isinstance(sl.slice.lower.op, ast.USub) and is_name(sl.slice.lower.operand, ivar):
+                        tname = sl.value.id
+                        ok_c = True
+        rep.ob('C02.R8', ctx.loc(f, c), 'candidate = "".join(T[-i:])', ok_c,
+               'the i-th candidate is the concatenation of the last i outputs' if ok_c else 'the candidate text is not the concatenation of a trailing sequence of the outputs', anchor=CHECK)
+        if tname is None:
+            continue
+        tdefs = rd.at(head, tname)
+        ok_t = False
+        for d in tdefs:
+            v = d.value
+            if isinstance(v, ast.BinOp) and isinstance(v.op, ast.Add) and isinstance(v.left, ast.Name) and isinstance(v.right, ast.List) and len(v.right.elts) == 1 and is_name(v.right.elts[0], 'got_stdout'):
+                ldefs = rd.at(d.node, v.left.id)
+                ok_t = v.left.id == 'unmatched' and all(dd.kind == 'param' or is_empty_list(dd.value) for dd in ldefs)
+        rep.ob('C02.R8', ctx.loc(f, tdefs[0].node.ast if tdefs else f.node), 'T = unmatched + [got_stdout]', ok_t and len(tdefs) == 1,
+               'earlier unmatched outputs first, the output of this part last' if ok_t else 'the list of outputs is not `unmatched + [got_stdout]` (order or content changed)', anchor=CHECK)
+        # (b) i ranges over 1 .. len(T)
+        ok_r = False
+        if isinstance(it, ast.Call) and is_name(it.func, 'range') and len(it.args) == 2:
+            ev = Evaluator({'len(%s)' % tname: 'N'})
+            lo = ev.aeval(it.args[0], {})
+            hi = ev.aeval(it.args[1], {})
+            ok_r = lo == parse_spec('1') and hi == parse_spec('N + 1')
+        rep.ob('C02.R8', ctx.loc(f, it), ctx.src(it), ok_r,
+               'every suffix length 1..len(T) is tried' if ok_r else 'not every trailing sequence is tried (range %s)' % ctx.src(it), anchor=CHECK)
+        # (d) same value / state for every candidate
+        ok_d = len(c.args) >= 4 and is_attr_of(c.args[0], params[0], 'want') and is_name(c.args[2], 'got_eval') and is_name(c.args[3], 'runstate')
+        rep.ob('C02.R8', ctx.loc(f, c), ctx.src(c), ok_d, 'compares part.want with the candidate under the same value and run state' if ok_d else 'comparator arguments changed', nontrivial=False, anchor=CHECK)
+    # (e) normal exit requires a comparison that returned normally
+    dom = ctx.dom(g, g.entry)
+    facts = graph.guard_facts(dom, g.exit) if dom.has(g.exit) else []
+    flag = [fa for fa in facts if isinstance(fa.expr, ast.Name) and fa.polarity is True]
+    ok_e = False
+    for fa in flag:
+        sets = [d for d in rd.defs_of(fa.expr.id) if isinstance(d.value, ast.Constant) and d.value.value is True]
+        others = [d for d in rd.defs_of(fa.expr.id) if not (isinstance(d.value, ast.Constant) and isinstance(d.value.value, bool))]
+        if sets and not others:
+            good = True
+            for d in sets:
+                # reached only by normal flow from a comparator call
+                p = graph.must_pass([g.entry], lambda x, dn=d.node: x is dn, through=[n for (n, _) in cmp_calls], efilter=graph.normal_only)
+                via_handler = graph.path([h for h in g.nodes if h.kind == 'handler'], lambda x, dn=d.node: x is dn, efilter=graph.normal_only, avoid=[n for (n, _) in cmp_calls])
+                if p is not None or via_handler is not None:
+                    good = False
+            ok_e = good
+    rep.ob('C02.R8', ctx.loc(f, f.node), 'normal return <=> some candidate matched', ok_e,
+           'check() returns normally only after a comparison completed without exception' if ok_e else
+           'check() can return normally although no candidate matched (guards of the exit: %s)' % fmt_facts(facts), anchor=CHECK)
+    # (f) failure raises a got/want error
+    toks = {tok for (_, k, tok) in g.raise_exit.pred if tok[0] != 'nonexc'}
+    explicit = [n for n in g.nodes if n.kind == 'stmt' and isinstance(n.ast, ast.Raise) and n.ast.exc is not None]
+    etoks = set()
+    for n in explicit:
+        etoks |= set(g._raise_tokens(n))       # the raised object (not what evaluating the operand may raise)
+    ok_f = bool(etoks) and all(t[0] in ('sub', 'exact') and t[1] == 'xdoctest.checker.GotWantException' for t in etoks)
+    rep.ob('C02.R8', ctx.loc(f, explicit[0].ast if explicit else f.node), 'no match -> raise a GotWantException', ok_f,
+           'the explicit raise re-raises a caught got/want error' if ok_f else 'on failure check() raises %s' % sorted(etoks), anchor=CHECK)
+
+
+# ---------------------------------------------------------------------------
 from ..selftest import fire, silent      # noqa: E402
 
 DE = 'xdoctest/doctest_example.py'
@@ -409,6 +501,12 @@ VARIANTS = [
     fire('got-eval-initialised-once', 'C02.R7',
          (DE, "        did_pre_import = False\n", "        did_pre_import = False\n        got_eval = constants.NOT_EVALED\n"),
          (DE, "                got_eval = constants.NOT_EVALED\n", "                pass\n")),
+    fire('only-current-output-tried', 'C02.R8', ('xdoctest/doctest_part.py', "        for i in range(1, len(trailing_gots) + 1):\n", "        for i in range(1, 2):\n")),
+    fire('longest-sequence-not-tried', 'C02.R8', ('xdoctest/doctest_part.py', "        for i in range(1, len(trailing_gots) + 1):\n", "        for i in range(1, len(trailing_gots)):\n")),
+    fire('leading-sequence-instead-of-trailing', 'C02.R8', ('xdoctest/doctest_part.py', "            got_ = ''.join(trailing_gots[-i:])\n", "            got_ = ''.join(trailing_gots[:i])\n")),
+    fire('outputs-in-wrong-order', 'C02.R8', ('xdoctest/doctest_part.py', "        trailing_gots = unmatched + [got_stdout]\n", "        trailing_gots = [got_stdout] + unmatched\n")),
+    fire('mismatch-returns-normally', 'C02.R8', ('xdoctest/doctest_part.py', "        if not success:\n", "        if not success and exceptions and False:\n")),
+    fire('success-set-in-handler', 'C02.R8', ('xdoctest/doctest_part.py', "                exceptions.append(ex)\n", "                exceptions.append(ex)\n                success = len(exceptions) > 3\n")),
     silent('append-as-augassign',
            (DE, "self._unmatched_stdout.append(cap.text)", "self._unmatched_stdout += [cap.text]")),
     silent('flags-rephrased',
